@@ -48,6 +48,28 @@ class _T(ast.NodeTransformer):
             return ast.copy_location(ast.Call(ast.Name('__sx_dotted__', ast.Load()), [node.left, node.right], []), node)
         return node
 
+    # `from struct import unpack` INSIDE a function body binds a local that no module global can shadow
+    # (ipvpn.py unpack_nlri, bgpls srv6locator/srv6endpointbehavior): bound to the struct shim instead (C15)
+    _fn_depth = 0
+    _STRUCT_SHIMMED = ('pack', 'unpack', 'unpack_from', 'calcsize', 'error', 'Struct')
+
+    def visit_FunctionDef(self, node):
+        self._fn_depth += 1
+        self.generic_visit(node)
+        self._fn_depth -= 1
+        return node
+
+    visit_AsyncFunctionDef = visit_FunctionDef
+
+    def visit_ImportFrom(self, node):
+        if (self._fn_depth and node.module == 'struct' and not node.level
+                and all(a.name in self._STRUCT_SHIMMED for a in node.names)):
+            REWRITES.append('%s:%d local-struct-import' % (self.path.split('/src/exabgp/')[-1], node.lineno))
+            return [ast.copy_location(ast.Assign([ast.Name(a.asname or a.name, ast.Store())],
+                                                 ast.Attribute(ast.Name('__sx_struct__', ast.Load()), a.name, ast.Load())), node)
+                    for a in node.names]
+        return node
+
 
 class _Loader(importlib.machinery.SourceFileLoader):
     def source_to_code(self, data, path, *, _optimize=-1):
@@ -64,6 +86,7 @@ class _Loader(importlib.machinery.SourceFileLoader):
         module.__dict__['__sx_join__'] = shims.sx_join
         module.__dict__['__sx_bmod__'] = shims.sx_bmod
         module.__dict__['__sx_dotted__'] = shims.sx_dotted
+        module.__dict__['__sx_struct__'] = shims.sym_struct
         super().exec_module(module)
         shims.shadow(module)
 
@@ -156,11 +179,14 @@ def finalize():
     """Idempotent: shadow late-loaded modules, wrap value classes, convert int/bytes-keyed registries."""
     mods = _exabgp_modules()
     import socket as _socket
+    import json as _json
     for m in mods:
         if isinstance(getattr(m, '__loader__', None), _Loader):
             shims.shadow(m)
             if m.__dict__.get('socket') is _socket:
                 m.__dict__['socket'] = shims.sym_socket
+            if m.__dict__.get('json') is _json:
+                m.__dict__['json'] = shims.sym_json
     for cls in shims.find_int_classes(mods):
         shims.wrap_value_class(cls)
     seen = set()
